@@ -71,16 +71,16 @@ REQS = {
     'one': ('[seg(rp, rl, False)]', ['rp', 'rl'], ['1 <= rp <= 0xFFFF and 0 <= rl <= 255']),
     'oneadr': ('[seg(rp, rl, True)]', ['rp', 'rl'], ['1 <= rp <= 0xFFFF and 0 <= rl <= 3']),
     'two': ('[seg(rp, rl, False), seg(2, rm, False)]', ['rp', 'rl', 'rm'], ['1 <= rp <= 0xFFFF and 0 <= rl <= 255 and 0 <= rm <= 255']),
-    'onestr': ("[seg(rp, rl, 'str')]", ['rp', 'rl'], ['1 <= rp <= 0xFFFF and 0 <= rl <= 9']),
+    'onestr': ("[seg(rp, rl, 'str')]", ['rp', 'rl'], ['1 <= rp <= 0xFFFF and 0 <= rl <= 2']),
 }
 QUICK = {('none', 'one', 'write'), ('simple', 'absent', 'read'), ('simple', 'empty', 'write'), ('simple', 'one', 'write'), ('one', 'one', 'write'),
-         ('one', 'absent', 'read'), ('one', 'two', 'gaa'), ('oneadr', 'oneadr', 'write'), ('one', 'oneadr', 'read'), ('two', 'two', 'write'), ('one', 'onestr', 'write')}
+         ('one', 'absent', 'read'), ('one', 'two', 'gaa'), ('oneadr', 'oneadr', 'write'), ('one', 'oneadr', 'read'), ('two', 'two', 'write'), ('one', 'onestr', 'write')} - {('oneadr', 'oneadr', 'write')}
 for cn, (cexpr, cparams, cpre) in CONFIGS.items():
     for rn, (rexpr, rparams, rpre) in REQS.items():
         for service in ('read', 'write', 'gaa'):
             define(globals(), 'C15', 'route_%s_vs_%s_%s' % (cn, rn, service), cparams + rparams + ['v'],
                    "return do_route(%s, %s, %r, v)" % (cexpr, rexpr, service), cpre + rpre + ['-32768 <= v <= 32767'],
-                   tier='quick' if (cn, rn, service) in QUICK else 'thorough', timeout=1200, path_timeout=120, drives=DRIVES,
+                   tier='quick' if (cn, rn, service) in QUICK else 'thorough', timeout=3000, path_timeout=120, drives=DRIVES,
                    symbolic=['configured ports 1..65535 / links 0..255 (address links: one of 4 addresses)', 'request ports/links likewise', 'v: written value'],
                    bounds='personality %s x request route path %s x service %s: accepted iff (no configuration) or (request has no route path) or '
                           '(request route == configured route, in port, link, length and link kind); refused => error status and the tag untouched' % (cn, rn, service),
@@ -103,6 +103,7 @@ def val(ds):
 
 
 def do_text(form, p0, p1, l0, l1, q0, m0):
+    p0, p1, l0, l1, q0, m0 = concretize(p0, 10), concretize(p1, 10), concretize(l0, 10), concretize(l1, 10), concretize(q0, 10), concretize(m0, 10)
     ps, ls = num([p0, p1]), num([l0, l1])
     P, Lk = val([p0, p1]), val([l0, l1])
     if form == 'pl':
